@@ -5,6 +5,8 @@ import ast
 import io
 import zlib
 
+import z3
+
 from vf.common import ObResult, Unit
 from vf.harness import extract as X
 from vf.harness import readcases as RC
@@ -17,7 +19,7 @@ from vf.pysym.models import CrcVal, crc_term, from_bytes
 from vf.pysym.values import ModelRaise, SBytes, SFile
 
 REF = "vf.ref7z"
-AI = "py7zr.archiveinfo"
+AI, PZ = "py7zr.archiveinfo", "py7zr.py7zr"
 
 ASSUMPTIONS = c06.ASSUMPTIONS + [
     "the base archive is reference-written (any layout of the C06 shape set) and parsed by the real reader; the append "
@@ -209,6 +211,83 @@ def append_step(pattern, folders, opts, new, focus=None):
     return r
 
 
+def append_open_position(pattern, folders):
+    """the real SevenZipFile.__init__(fileobj, 'a') on a file object whose position is anywhere: the session either appends
+    to the archive that is there (it sees its members) or raises - it never silently starts a new archive over it"""
+    from vf.harness.session import LayoutFile, sig_header_items
+    from vf.harness import refwriter as W
+
+    r = ObResult(bounds="base layout %s in a file object positioned at a symbolic offset 0..end; SevenZipFile(fileobj, 'a')"
+                        % RC.shape_name(pattern, folders, {}))
+    eng, st = mk_engine()
+    sym = RC.symbols(eng, pattern)
+    pos = eng.sym_int("position", 41)
+
+    def harness(e):
+        st.pop("compressors", None)
+        entries, layout = RC.build(e, pattern, folders, {}, sym)
+        world = X.World(e, "live", 3, "arbitrary")
+        X.install_read_stubs(e, world)
+        items = W.write_header(entries, layout, eng=e)
+        data_len = 0
+        for p_ in layout.get("packsizes", []):
+            data_len = e.binop(ast.Add(), data_len, p_)
+        total = tokens.byte_len(e, items)
+        fp = LayoutFile(e, sig_header_items(e, data_len, total, items), data_len, items)
+        end = e.binop(ast.Add(), e.binop(ast.Add(), 32, data_len), total)
+        e.assume(e.compare(ast.LtE(), pos, end))
+        fp.seek(e, pos)
+        n_ops = len(fp.ops)
+
+        def magic_here(e_, f_):
+            # contract of _check_7zfile: are the 6 bytes at the CURRENT position the magic?  yes at offset 0 of this
+            # (valid) archive; anywhere else: whatever bytes lie there (either answer), position restored
+            if e_.branch(e_.compare(ast.Eq(), f_.tell(e_), 0)):
+                return True
+            return e_.branch(z3.Bool("bytes_at_position_look_like_magic"))
+
+        e.overrides[(PZ, "SevenZipFile._check_7zfile")] = magic_here
+        try:
+            z = e.new(e.cls(PZ, "SevenZipFile"), fp, "a")
+        except ModelRaise as ex:
+            return dict(raised=ex.name)
+        writes = [op for op in fp.ops[n_ops:] if op[0] == "write"]
+        return dict(nfiles=len(list(e.iterate(z.attrs["files"]))), writes=len(writes))
+
+    def post(o):
+        if "raised" in o:
+            return None          # refusing is fine
+        return [o["nfiles"] == len(pattern), o["writes"] == 0]   # the old members are seen and nothing was written over them
+
+    decide(eng, harness, post, dict(RC.inputs_of(sym, pattern, folders), position=pos), r,
+           describe=lambda o: o.get("raised") or "%d members seen, %d writes at open" % (o["nfiles"], o["writes"]))
+    _cex(r, "append_open_position", lambda w_: dict(module="vf.props.c08", func="replay_open_position", kwargs=dict(
+        position=int(w_.get("position", 0)))), signature=lambda w_: {"obligation": "append_open_position"})
+    return r
+
+
+def replay_open_position(position):
+    import py7zr
+
+    buf = io.BytesIO()
+    with py7zr.SevenZipFile(buf, "w", filters=[{"id": py7zr.FILTER_COPY}]) as z:
+        z.writestr(b"first member", "a.txt")
+    size = len(buf.getvalue())
+    buf.seek(min(position, size) if position else buf.tell())
+    at = buf.tell()
+    try:
+        with py7zr.SevenZipFile(buf, "a", filters=[{"id": py7zr.FILTER_COPY}]) as z:
+            z.writestr(b"second", "b.txt")
+    except Exception as e:  # noqa
+        return False, "opening for append at position %d raised %r (allowed)" % (at, e)
+    buf.seek(0)
+    try:
+        names = py7zr.SevenZipFile(buf).getnames()
+    except Exception as e:  # noqa
+        return True, "archive unreadable after an append session opened at position %d: %r" % (at, e)
+    return names != ["a.txt", "b.txt"], "append session on a file object at position %d of %d: archive now holds %s" % (at, size, names)
+
+
 def _sig(pattern, folders, opts, new):
     implicit = bool(folders) and all(n == 1 for n in folders) and opts.get("omit_numunpack", True)
     return dict(c06._sig("append_step", pattern, folders, opts), implicit_substream_sizes=implicit,
@@ -323,6 +402,8 @@ def units(tier):
         for nw in news:
             us.append(Unit("append[%s + %s]" % (RC.shape_name(p, f, o), nw or "nothing"), M, "append_step",
                            dict(pattern=p, folders=f, opts=o, new=nw), 1200))
+    for (p, f) in [("f", [1]), ("ff", [1, 1])]:
+        us.append(Unit("append_open_position[%s]" % RC.shape_name(p, f, {}), M, "append_open_position", dict(pattern=p, folders=f), 900))
     # metadata py7zr's writer does not carry: creation times of a foreign base (one obligation of its own, open finding K07)
     for nw in (["s"] if tier == "quick" else ["s", "d", ""]):
         us.append(Unit("append_keeps_ctime[f/1 + %s]" % (nw or "nothing"), M, "append_step",
